@@ -34,6 +34,8 @@ CONTAINERS = ('top', 'quote', 'list', 'mixed')
 SPELLINGS = ('atx', 'setext')
 MARKUPS = [('*{}*', '{}'), ('**{}**', '{}'), ('`{}`', '{}'), ('[{}](u)', '{}'), ('~~{}~~', '{}'),
            ('{} *x* y', '{} x y'), ('_{}_ **b**', '{} b'),
+           # raw inline HTML in a heading: the tags are not part of its plain text
+           ('{} <kbd>x</kbd> y', '{} x y'),
            # plain text that looks like markup again (escaped in the heading): brackets, emphasis
            ('\\[{}\\]\\[b\\]', '[{}][b]'), ('\\[{}\\]', '[{}]'), ('\\*{}\\*', '*{}*')]
 
